@@ -11,8 +11,12 @@ package main
 import (
 	"encoding/json"
 	"fmt"
+	"os"
+	"os/exec"
+	"path/filepath"
 	"sort"
 	"strings"
+	"sync"
 	"unicode/utf8"
 
 	"github.com/mattn/go-runewidth"
@@ -29,7 +33,28 @@ type C18Spec struct {
 	Kind  int      `json:"kind,omitempty"`
 	Next  [][]byte `json:"next,omitempty"`   // texts the item is changed to, Update() after each (kinds 1,2,3,5; otherwise only Update())
 	NextQ []string `json:"next_q,omitempty"` // preview of Next
-	RMode int      `json:"rmode,omitempty"`  // render probe: 0 none, 1 only body cell, 2 only header cell
+	// render probe: 0 none, 1 only body cell, 2 only header cell; one column of
+	// three cells (the item, a wide ASCII text, a twin item with the same text
+	// that declares its own display width): 3 body rows item/wide/twin,
+	// 4 header item + body rows wide/twin, 5 body rows twin/wide/item
+	RMode int `json:"rmode,omitempty"`
+	// Conc > 0: while the string is measured (LongestLine*, NewCell) Conc other
+	// goroutines measure other multi-line strings; the first deviating result is
+	// what gets reported
+	Conc int `json:"conc,omitempty"`
+}
+
+// the companions of the item in render modes 3-5, derived from s alone: the
+// width the twin declares and the wide text
+func c18Companions(s string) (decl int, wide string) {
+	m := 0
+	for _, l := range ownLines(s) {
+		if w := runewidth.StringWidth(l); w > m {
+			m = w
+		}
+	}
+	decl = m + 1 + len(s)%2
+	return decl, strings.Repeat("w", decl+3)
 }
 
 func c18Spec(s string, kind int) C18Spec {
@@ -190,17 +215,149 @@ func c18Observe(sp C18Spec) (o C18Obs) {
 		o.RenderLast = c18Render(home)
 	}
 	if sp.RMode != 0 {
-		// a fresh item in a fresh one-cell table
+		// a fresh item in a fresh table
 		it2, _ := c18Item(s, kind)
+		decl, wide := c18Companions(s)
+		twin, _ := newObj(1|16, objData{s: s, w: decl})
 		t := tabular.New()
-		if sp.RMode == 2 {
-			t.AddHeaders(it2)
-		} else {
+		switch sp.RMode {
+		case 1:
 			t.AddRowItems(it2)
+		case 2:
+			t.AddHeaders(it2)
+		case 3:
+			t.AddRowItems(it2)
+			t.AddRowItems(wide)
+			t.AddRowItems(twin)
+		case 4:
+			t.AddHeaders(it2)
+			t.AddRowItems(wide)
+			t.AddRowItems(twin)
+		case 5:
+			t.AddRowItems(twin)
+			t.AddRowItems(wide)
+			t.AddRowItems(it2)
+		default:
+			panic(fmt.Sprintf("harness: unknown render mode %d", sp.RMode))
 		}
 		o.Render = c18Render(t)
 	}
+	if sp.Conc > 0 {
+		c18Concurrent(sp, &o)
+	}
 	return o
+}
+
+// c18Concurrent measures s again and again while other goroutines measure
+// other multi-line strings; a result that differs from the sequential one
+// replaces it in the observation (so the property's equalities judge it).
+func c18Concurrent(sp C18Spec, o *C18Obs) {
+	s := string(sp.S)
+	want, wantW := o.Long, o.Cell.W
+	stop := make(chan struct{})
+	var wg sync.WaitGroup
+	var mu sync.Mutex
+	deviated := false
+	for g := 0; g < sp.Conc; g++ {
+		wg.Add(1)
+		go func(g int) { // measures something else all the time
+			defer wg.Done()
+			defer func() { recover() }()
+			decoy := strings.Repeat(strings.Repeat("x", 3+g%7)+"\n", 2+g%5) + strings.Repeat("界", g%4)
+			for {
+				select {
+				case <-stop:
+					return
+				default:
+				}
+				length.LongestLineBytes(decoy)
+				length.LongestLineRunes(decoy)
+				length.LongestLineCells(decoy)
+				c := tabular.NewCell(decoy)
+				_ = c.TerminalCellWidth()
+			}
+		}(g)
+	}
+	var cw sync.WaitGroup
+	for g := 0; g < 1+sp.Conc/2; g++ {
+		cw.Add(1)
+		go func() { // measures s and compares with the sequential result
+			defer cw.Done()
+			defer func() { recover() }()
+			for i := 0; i < 1500; i++ {
+				got := meas{length.LongestLineBytes(s), length.LongestLineRunes(s), length.LongestLineCells(s)}
+				w := wantW
+				if sp.Kind == 0 {
+					c := tabular.NewCell(s)
+					w = c.TerminalCellWidth()
+				}
+				if got != want || w != wantW {
+					mu.Lock()
+					if !deviated {
+						deviated = true
+						o.Long, o.Cell.W = got, w
+						o.Sig = "while-other-goroutines-measure"
+					}
+					mu.Unlock()
+					return
+				}
+			}
+		}()
+	}
+	cw.Wait()
+	close(stop)
+	wg.Wait()
+}
+
+// c18InChild runs one case in a child process (this binary, -specs mode) and
+// hands back the observation it made: its Coq term and its description
+func c18InChild(spec json.RawMessage) (string, interface{}) {
+	crashed := func(why string) (string, interface{}) {
+		if len(why) > 600 {
+			why = why[:600]
+		}
+		return "Panic", C18Obs{Panic: "the measuring process died: " + why, Sig: "while-other-goroutines-measure"}
+	}
+	exe, err := os.Executable()
+	if err != nil {
+		panic("harness: os.Executable: " + err.Error())
+	}
+	dir, err := os.MkdirTemp("", "c18child")
+	if err != nil {
+		panic("harness: " + err.Error())
+	}
+	defer os.RemoveAll(dir)
+	sf := filepath.Join(dir, "specs.json")
+	if err := os.WriteFile(sf, mustJSON([]json.RawMessage{spec}), 0o644); err != nil {
+		panic("harness: " + err.Error())
+	}
+	cmd := exec.Command(exe, "C18", "-specs", sf, "-out", dir, "-keep-coq")
+	cmd.Env = append(os.Environ(), "C18_CHILD=1")
+	out, err := cmd.CombinedOutput()
+	if err != nil {
+		return crashed(err.Error() + ": " + string(out))
+	}
+	b, err := os.ReadFile(filepath.Join(dir, "cases.json"))
+	if err != nil {
+		return crashed("no result: " + err.Error())
+	}
+	var recs []struct {
+		Observed json.RawMessage `json:"observed"`
+		Coq      string          `json:"coq"`
+	}
+	if err := json.Unmarshal(b, &recs); err != nil || len(recs) != 1 {
+		return crashed("unreadable result")
+	}
+	// the term is "(input, observation)": the input is rebuilt by the caller
+	term := recs[0].Coq
+	i := strings.LastIndex(term, ", (Ok (mkObs18 ")
+	if i < 0 {
+		if strings.HasSuffix(term, ", Panic)") {
+			return "Panic", recs[0].Observed
+		}
+		return crashed("unexpected term")
+	}
+	return term[i+2 : len(term)-1], recs[0].Observed
 }
 
 // the harness's own line splitter (terminator semantics), used only to decide
@@ -337,6 +494,19 @@ var c18Atoms = []string{
 	"Ź̈", "　", "―", " ",
 }
 
+// more atoms: emoji + skin tone, decomposed Hangul, Devanagari with a spacing
+// mark, bidi controls, ZWJ profession, flag, lone jamo, stacked marks
+var c18Atoms2 = []string{"\U0001F44D\U0001F3FD", "\u1112\u1161\u11ab", "\u0915\u093e", "\u202a\u202c", "\U0001F469\u200d\U0001F680",
+	"\U0001F1EF\U0001F1F5", "\u1100", "e\u030a\u035c"}
+
+// grapheme clusters of two or more runes of non-zero width, and non-empty
+// texts of no width at all
+var c18Clusters = []string{"\U0001F44D\U0001F3FD", "\U0001F468\u200d\U0001F469\u200d\U0001F467", "\U0001F1E9\U0001F1EA",
+	"\u1112\u1161\u11ab", "\u0915\u093e", "\u0e01\u0e33", "\u2764\ufe0f"}
+var c18ZeroWide = []string{"\u200b", "\u0301", "\u202a\u202c", "\u200d", "\u00ad", "\x00", "\r"}
+
+func init() { c18Atoms = append(c18Atoms, c18Atoms2...) }
+
 func c18Rand(r *RNG) string {
 	var sb strings.Builder
 	n := 1 + r.Intn(8)
@@ -397,7 +567,7 @@ var c18Shorts = []string{"café", "£12", "世", "é", "á", "​", "❤️", "\
 
 func (sp C18Spec) key() string {
 	var sb strings.Builder
-	fmt.Fprintf(&sb, "%d:%d:%s", sp.Kind, sp.RMode, sp.S)
+	fmt.Fprintf(&sb, "%d:%d:%d:%s", sp.Kind, sp.RMode, sp.Conc, sp.S)
 	for _, n := range sp.Next {
 		fmt.Fprintf(&sb, "\x00>%s", n)
 	}
@@ -410,9 +580,9 @@ func (sp C18Spec) size() int {
 		n += len(t)
 	}
 	if sp.RMode != 0 {
-		n++
+		n += 1 + sp.RMode/3
 	}
-	return n
+	return n + sp.Conc
 }
 
 func (sp C18Spec) with(s string) C18Spec {
@@ -432,7 +602,8 @@ func init() {
 		Rule: "one string per case, measured by length.Lines / StringBytes / StringRunes / StringCells / LongestLine{Bytes,Runes,Cells} and stored in a cell " +
 			"(as a string; for short strings also behind String(), Error(), GoString(), as a nested Cell, and behind String() in a cell that lives in a table and is reached through CellAt) whose String / Lines / Height / TerminalCellWidth are read; " +
 			"for the mutable item kinds the text is then taken through a chain (-> empty, -> longer with more lines, -> shorter, -> more lines, -> fewer lines, -> empty) with Update() and the same reads after every step; " +
-			"render probe: the item as the only body (or header) cell of a table rendered by texttable with the ascii-simple decoration, the bytes compared with rules of width+2 dashes and content lines padded by width - StringCells(line) (for the table-held cell also after the last Update); " +
+			"render probe: the item as the only body (or header) cell of a table, or in a one-column table together with a wider ASCII text and a twin item with the same text that declares its own display width (three orders), rendered by texttable with the ascii-simple decoration, the bytes compared with rules of width+2 dashes and content lines padded by width - StringCells(line) (for the table-held cell also after the last Update); " +
+			"a few multi-line strings are measured repeatedly while 8-32 other goroutines measure other multi-line strings; " +
 			"every string of up to 4 (quick) or 5 (thorough) symbols over {LF, 'a', U+4E16 (3 bytes, double width), U+0301 (combining), byte 0xFF}, multi-line strings whose widest line is plain ASCII next to a shorter line with multi-byte / wide / combining / zero-width characters, and random strings up to ~30 bytes over " +
 			"CJK, combining marks, ZWJ emoji sequences, VS16, regional indicators, tabs, CR, CRLF, NUL, DEL, soft hyphen and ill-formed UTF-8 (truncated, overlong, surrogate, > U+10FFFF, stray continuation), with leading/repeated/trailing newlines; " +
 			"grapheme clusters and rune widths of every string measured and of each of its lines are taken from the real uniseg / go-runewidth and the three oracle assumptions are checked on them; " +
@@ -450,6 +621,7 @@ func init() {
 			rec = func(prefix string, n int) {
 				add(c18SpecFull(prefix, 0, nil, 1))
 				if n <= 3 {
+					add(c18SpecFull(prefix, 0, nil, 3+n%3))
 					for _, k := range []int{1, 2, 3, 5} {
 						add(c18SpecFull(prefix, k, c18Chain(prefix), 2))
 					}
@@ -478,6 +650,33 @@ func init() {
 					add(c18SpecFull(sh, 1, []string{w + "\n" + sh, sh}, 2))
 				}
 			}
+			// clusters of several non-zero-width runes on one line of a multi-line text;
+			// non-empty texts without width next to something wider
+			for j, c := range c18Clusters {
+				for _, t := range []string{"a\n" + c, c + "\nb", c + c + "\n\n", "ab\n" + c + "x\n" + c} {
+					add(c18SpecFull(t, 0, nil, 1+(i+j)%5))
+					i++
+				}
+				add(c18SpecFull("x", 1, []string{"a\n" + c, c}, 3))
+			}
+			for j, z := range c18ZeroWide {
+				for _, t := range []string{z, z + z, "ab\n" + z, z + "\nab\n" + z + z} {
+					add(c18SpecFull(t, 0, nil, 3+(i+j)%3))
+					add(c18SpecFull(t, 0, nil, 1+(i+j)%2))
+					i++
+				}
+			}
+			// measured while other goroutines measure other multi-line strings
+			nconc := 16
+			if tier == "thorough" {
+				nconc = 60
+			}
+			for j := 0; j < nconc; j++ {
+				w, sh := c18Words[j%len(c18Words)], c18Shorts[j%len(c18Shorts)]
+				sp := c18SpecFull(strings.Repeat(w+"\n", 1+j%3)+sh+"\n"+w+w, 0, nil, 0)
+				sp.Conc = 8 + 8*(j%4)
+				add(sp)
+			}
 			n := 1500
 			if tier == "thorough" {
 				n = 60000
@@ -504,7 +703,7 @@ func init() {
 				if r.Pct(10) {
 					s = pick(r, c18Words) + "\n" + c18Rand(r)
 				}
-				rmode := 1 + r.Intn(2)
+				rmode := 1 + r.Intn(5)
 				if r.Pct(10) {
 					rmode = 0
 				}
@@ -518,7 +717,17 @@ func init() {
 				panic(err)
 			}
 			s := string(sp.S)
-			o := c18Observe(sp)
+			var o C18Obs
+			var desc interface{}
+			obsCoq := ""
+			if sp.Conc > 0 && os.Getenv("C18_CHILD") == "" {
+				// a data race inside the library can take the whole process down
+				// (torn string headers): measure in a child, a crash is an observation
+				obsCoq, desc = c18InChild(spec)
+			} else {
+				o = c18Observe(sp)
+				obsCoq, desc = o.Coq(), o
+			}
 			strs := append([]string{s}, ownLines(s)...)
 			nexts := make([]string, len(sp.Next))
 			for i, t := range sp.Next {
@@ -527,10 +736,17 @@ func init() {
 				strs = append(strs, ownLines(string(t))...)
 			}
 			segTab, rwTab, cwTab := c18Oracle(strs)
-			in := fmt.Sprintf("(mkIn18 %s %s %s %s %s %s %s)", cqStr(s), cqNat(sp.Kind), cqList(nexts), cqNat(sp.RMode), segTab, rwTab, cwTab)
+			decl, wide := 0, ""
+			if sp.RMode >= 3 {
+				decl, wide = c18Companions(s)
+			}
+			in := fmt.Sprintf("(mkIn18 %s %s %s %s %s %s %s %s %s)", cqStr(s), cqNat(sp.Kind), cqList(nexts), cqNat(sp.RMode), cqStr(wide), cqNat(decl), segTab, rwTab, cwTab)
 			tags := append(c18Tags(s, sp.Kind), fmt.Sprintf("updates=%d", min(len(sp.Next), 4)), fmt.Sprintf("rmode=%d", sp.RMode))
 			if c18AsciiWidest(s) {
 				tags = append(tags, "widest-line-ascii-other-line-not")
+			}
+			if sp.Conc > 0 {
+				tags = append(tags, "concurrent-measuring")
 			}
 			for i, t := range sp.Next {
 				prev := s
@@ -543,8 +759,8 @@ func init() {
 				}
 			}
 			return CaseOut{
-				Coq:        cqPair(in, o.Coq()),
-				Desc:       o,
+				Coq:        cqPair(in, obsCoq),
+				Desc:       desc,
 				Size:       sp.size(),
 				Tags:       tags,
 				Key:        sp.key(),
@@ -580,6 +796,21 @@ func init() {
 			if sp.RMode != 0 {
 				c := sp
 				c.RMode = 0
+				add(c)
+				if sp.RMode > 2 {
+					c := sp
+					c.RMode = 1
+					add(c)
+				}
+				if sp.RMode > 3 {
+					c := sp
+					c.RMode = 3
+					add(c)
+				}
+			}
+			if sp.Conc > 0 {
+				c := sp
+				c.Conc = 0
 				add(c)
 			}
 			if sp.Kind != 0 {
